@@ -14,7 +14,7 @@ use std::collections::BTreeMap;
 use std::io::Write;
 use std::process::{Command, Stdio};
 
-pub const RULE: &str = "inputs: (1) format literals — every string of length <= L over a 27-symbol alphabet with 1-4 byte chars, plus seeded random long/Unicode/huge-number/unbalanced literals — through the literal parser and through Display/Debug expansions at struct, variant, field and enum level; (2) attribute bodies: documented templates per derive, mutated (delete/duplicate/swap/wrap/replace token trees) and random token streams from a 60-token vocabulary, nesting <= 6 (plus a deep-nesting family to depth 64), on container/variant/field positions; (3) item shapes (unit/tuple/named structs, enums incl. zero-variant, unions, generics, exotic field types) x all 50 derives. Oracle: outcome must be Ok, Err(diagnostic) or a deliberate panic (explicit panic!/assert! line in impl/src); non-trivial = the input is rejected (error path) or contains a multi-byte character or an attribute; distinct by (derive, item text)";
+pub const RULE: &str = "inputs: (1) format literals — every string of length <= L over a 28-symbol alphabet with 1-4 byte chars, plus seeded random long/Unicode/huge-number/unbalanced literals — through the literal parser and through Display/Debug expansions at struct, variant, field and enum level; (2) attribute bodies: documented templates per derive, mutated (delete/duplicate/swap/wrap/replace token trees) and random token streams from a 60-token vocabulary, nesting <= 6 (plus a deep-nesting family to depth 64), on container/variant/field positions; (3) item shapes (unit/tuple/named structs, enums incl. zero-variant, unions, generics, exotic field types) x all 50 derives. Oracle: outcome must be Ok, Err(diagnostic) or a deliberate panic (explicit panic!/assert! line in impl/src); non-trivial = the input is rejected (error path) or contains a multi-byte character or an attribute; distinct by (derive, item text)";
 
 #[derive(Clone, Debug)]
 pub struct Case {
@@ -248,7 +248,7 @@ fn literal_adversarial(d: &mut Dice) -> String {
         "{", "}", "{{", "}}", "{}", "{0}", "{a}", ":", "{:", "{:?}", "{:>", "$", "{:1$}", "{:.*}", "{99999999999999999999}",
         "{:1$.340282366920938463463374607431768211456}", "{:18446744073709551616}", "{0:65536}", "é", "→", "𝒳", "\u{301}", "\u{202e}", "\u{10ffff}",
         "\u{0}", "\\", "\"", "\n", "\t", " ", "{_variant}", "{_0}", "{_1:p}", "{self}", "{r#a}", "{a.b}", "{:#?}", "{:x?}", "{:é^9}", "{:𝒳<}", "{:}<5}",
-        "{:{<5}", "{0:0$}", "{:00$}", "{w$}", "{:w$.p$}", "{:+#0", "{:-}", "{:e}", "{:E}", "{:p}", "{:b}", "{:o}", "{:X}", "{:X?}", "{:?x}", "{9a}", "{a9}", "{_}",
+        "{:{<5}", "{_0\u{2003}}", "{a\u{a0}:>4}", "{:?\u{3000}}", "\u{2003}", "\u{a0}", "{0:0$}", "{:00$}", "{w$}", "{:w$.p$}", "{:+#0", "{:-}", "{:e}", "{:E}", "{:p}", "{:b}", "{:o}", "{:X}", "{:X?}", "{:?x}", "{9a}", "{a9}", "{_}",
     ];
     let n = d.range(1, 8);
     let mut s = String::new();
@@ -693,7 +693,7 @@ pub fn run(ctx: &Ctx) -> Report {
     }
     rep.violations = out;
     rep.evidence.exhaustive = Some(false);
-    rep.evidence.explanation = format!("all strings of length <= {} over the 27-symbol alphabet go through the literal parser (exhaustive sub-space); everything else is seeded sampling", ctx.tier.pick(4, 5));
+    rep.evidence.explanation = format!("all strings of length <= {} over the 28-symbol alphabet go through the literal parser (exhaustive sub-space); everything else is seeded sampling", ctx.tier.pick(4, 5));
     rep
 }
 
